@@ -7,7 +7,9 @@ SUB = {G("handleGrainContext"): P + "vC31_onReceive", G("deactivate"): P + "vC31
 SUB_ACT = {"(*" + P + "dispatcher).schedule": P + "vC31_scheduleQ", "(*" + P + "worker).reschedule": P + "vC31_rescheduleQ", G("recovery"): P + "vC31_recovery",
            "(*" + P + "actorSystem).localSend": P + "vC31_localSend", "(*" + P + "GrainIdentity).Validate": P + "vC31_validateID",
            "(*" + P + "reflection).instantiateGrain": P + "vC31_instantiate", "(*github.com/flowchartsman/retry.Retrier).RunContext": P + "vC31_runContext"}
-STOP = [k for k in SUB if k != G("handleGrainContext")] + ["(*" + P + "actorSystem).localSend", "(*" + P + "reflection).instantiateGrain"]
+SUB_RESEND = dict(SUB_ACT)
+SUB_RESEND.update({G("teardownInFlightRequests"): P + "vC31_teardown", "(*" + P + "GrainContext).NoErr": P + "vC31_noErr", "(*" + P + "GrainContext).Err": P + "vC31_errFn"})
+STOP = [k for k in SUB if k not in (G("handleGrainContext"), G("deactivate"))] + ["(*" + P + "actorSystem).localSend", "(*" + P + "reflection).instantiateGrain"]
 CHECK = {
     "id": "C31",
     "packages": ["./actor"],
@@ -18,6 +20,8 @@ CHECK = {
         {"fn": P + "vC31_deactivate", "replay": "model-only"},
         {"fn": P + "vC31_activation", "replay": "model-only", "cases": {"first": [0, 1], "retained": [0, 1]},
          "opts": {"substitute": SUB_ACT, "unwind": 6}, "cover_optional": ("all-received",)},
+        {"fn": P + "vC31_resend", "replay": "model-only", "opts": {"substitute": SUB_RESEND, "unwind": 6, "rounds": 2},
+         "cover_optional": ("sent-after-deactivation", "fresh-instance", "handled-by-old-or-dropped")},
     ],
     "opts": {"rounds": 3, "unwind": 4, "unwind_mode": "assume", "feasibility": False, "substitute": SUB},
     "stop": STOP,
